@@ -231,8 +231,11 @@ def run_case(case, env):
             try:
                 D.open(work)
                 (D.RaggedArray if kind.startswith('ragged') else D.Array)(work)[0 if kind != 'empty' else slice(None)]
+                # ... and still holds a live read-write handle object on it while the consumer runs
+                keep_alive = (D.RaggedArray if kind.startswith('ragged') else D.Array)(work, accessmode='r+')
+                res.count('obs.live_rplus_handle_during_consumer')
             except Exception:
-                pass
+                keep_alive = None
             times = {p_: (p_.stat().st_atime_ns, p_.stat().st_mtime_ns) for p_ in work.rglob('*') if p_.is_file()}
         apply(work / sub if sub else work, action)
         if case.get('warm'):
